@@ -87,6 +87,8 @@ pub(crate) enum AppointmentInfo {
 enum StoredAppointment {
     New,
     Update,
+    /// The appointment could not be stored: its owner is not in the database (anymore).
+    UnknownUser,
 }
 
 /// Types of new triggered appointments handled by the [Watcher].
@@ -95,6 +97,8 @@ enum TriggeredAppointment {
     Accepted,
     Rejected,
     Invalid,
+    /// The appointment could not be stored: its owner is not in the database (anymore).
+    UnknownUser,
 }
 
 /// Component in charge of watching for triggers in the chain (aka channel breaches for lightning).
@@ -205,7 +209,7 @@ impl Watcher {
         // This will hang, the request will timeout but be accepted. However, the user will not be handed the receipt.
         // This could be fixed adding a thread to take care of storing while the main thread returns the receipt.
         // Not fixing this atm since working with threads that call self.method is surprisingly non-trivial.
-        match self
+        let stored = match self
             .locator_cache
             .lock()
             .unwrap()
@@ -213,13 +217,21 @@ impl Watcher {
         {
             // Appointments that were triggered in blocks held in the cache
             Some(dispute_tx) => {
-                self.store_triggered_appointment(uuid, &extended_appointment, user_id, dispute_tx);
+                self.store_triggered_appointment(uuid, &extended_appointment, user_id, dispute_tx)
+                    != TriggeredAppointment::UnknownUser
             }
             // Regular appointments that have not been triggered (or, at least, not recently)
             None => {
-                self.store_appointment(uuid, &extended_appointment);
+                self.store_appointment(uuid, &extended_appointment)
+                    != StoredAppointment::UnknownUser
             }
         };
+
+        // The user has been removed (its subscription got outdated) while the request was being served: nothing has been
+        // stored, and everything the user owned is gone along with the slots that were just filled.
+        if !stored {
+            return Err(AddAppointmentFailure::AuthenticationFailure);
+        }
 
         let mut receipt = AppointmentReceipt::new(
             extended_appointment.user_signature,
@@ -245,8 +257,18 @@ impl Watcher {
             dbm.update_appointment(uuid, appointment).unwrap();
             StoredAppointment::Update
         } else {
-            dbm.store_appointment(uuid, appointment).unwrap();
-            StoredAppointment::New
+            // The only way this can fail here is the user not being in the database (foreign key): it was there when the
+            // slots were filled, but users are removed as blocks are connected.
+            match dbm.store_appointment(uuid, appointment) {
+                Ok(_) => StoredAppointment::New,
+                Err(e) => {
+                    log::warn!(
+                        "Cannot store appointment {uuid}, user {} not found. Error: {e:?}",
+                        appointment.user_id
+                    );
+                    StoredAppointment::UnknownUser
+                }
+            }
         }
     }
 
@@ -271,7 +293,9 @@ impl Watcher {
                 // FKs to trackers. If handle breach fails, data will be deleted later.
                 // The appointment may already be there without a tracker (e.g. its penalty was already
                 // in the chain when the breach was seen), in which case this is an update.
-                self.store_appointment(uuid, appointment);
+                if self.store_appointment(uuid, appointment) == StoredAppointment::UnknownUser {
+                    return TriggeredAppointment::UnknownUser;
+                }
 
                 if let ConfirmationStatus::Rejected(reason) = self.responder.handle_breach(
                     uuid,
